@@ -5,6 +5,8 @@ import Glom.Spec.C10
   denotation, and the refinement itself (one mutual structural induction over
   spec trees, lists of children, Switch cases and dict entries).
 -/
+set_option linter.unusedSimpArgs false
+
 namespace Glom.C10
 open Glom Glom.MV
 
@@ -247,6 +249,898 @@ theorem mexpr_rel (l : MSide) (op : CmpOp) (r : Side) (t : V) :
     cases tGet e t with
     | none => exact Rel.mk_rej [] hw.pae_ok
     | some v => exact side v
+
+
+/-! ### user callables and Check -/
+
+omit hw in
+theorem posRes_raise {x : V} {c : String} (h : posRes x = .raise c) : c = "TypeError" := by
+  unfold posRes at h
+  split at h
+  · contradiction
+  · injection h with h; exact h.symm
+
+omit hw in
+theorem nthPos_raise {i : Nat} {x : V} {c : String} (h : nthPos i x = .raise c) :
+    c ∈ ["TypeError", "IndexError", "KeyError"] := by
+  unfold nthPos at h
+  repeat (first
+    | (split at h)
+    | (have := posRes_raise h; subst this; simp)
+    | (injection h with h; subst h; simp)
+    | contradiction)
+
+omit hw in
+theorem lenLt3_raise {x : V} {c : String} (h : lenLt3 x = .raise c) : c = "TypeError" := by
+  unfold lenLt3 at h
+  split at h
+  · contradiction
+  · injection h with h; exact h.symm
+
+omit hw in
+theorem lookup_mem {α β} [BEq α] [LawfulBEq α] {l : List (α × β)} {a : α} {b : β}
+    (h : l.lookup a = some b) : (a, b) ∈ l := by
+  induction l with
+  | nil => simp [List.lookup] at h
+  | cons p rest ih =>
+    obtain ⟨k, v⟩ := p
+    simp only [List.lookup] at h
+    split at h
+    · rename_i heq
+      injection h with h; subst h
+      have : a = k := by simpa using heq
+      subst this; exact List.mem_cons_self
+    · exact List.mem_cons_of_mem _ (ih h)
+
+omit hw in
+theorem predApply_raise {fn : String} {x : V} {c : String} (h : predApply fn x = .raise c) :
+    c ∈ ["TypeError", "ValueError", "GlomError", "NameError", "IndexError", "KeyError"] := by
+  unfold predApply at h
+  split at h
+  · rename_i f hf
+    have hm := lookup_mem hf
+    simp only [predTable, List.mem_cons, Prod.mk.injEq, List.not_mem_nil, or_false] at hm
+    rcases hm with ⟨_, rfl⟩ | ⟨_, rfl⟩ | ⟨_, rfl⟩ | ⟨_, rfl⟩ | ⟨_, rfl⟩ | ⟨_, rfl⟩ | ⟨_, rfl⟩ | ⟨_, rfl⟩ |
+      ⟨_, rfl⟩ | ⟨_, rfl⟩ | ⟨_, rfl⟩ | ⟨_, rfl⟩ | ⟨_, rfl⟩ | ⟨_, rfl⟩ | ⟨_, rfl⟩ | ⟨_, rfl⟩ | ⟨_, rfl⟩
+    all_goals first
+      | (have := nthPos_raise h; simp at this; rcases this with rfl | rfl | rfl <;> simp)
+      | (have := posRes_raise h; subst this; simp)
+      | (have := lenLt3_raise h; subst this; simp)
+      | (injection h with h; subst h; simp)
+      | (simp at h)
+  · injection h with h; subst h; simp
+
+theorem pred_is_exc {fn : String} {x : V} {c : String} (h : predApply fn x = .raise c) :
+    env.exc.isSub c "Exception" = true := by
+  have := predApply_raise h
+  simp only [List.mem_cons, List.not_mem_nil, or_false] at this
+  rcases this with rfl | rfl | rfl | rfl | rfl | rfl
+  · exact (hw.plain_ok "TypeError" (by simp)).2
+  · exact (hw.plain_ok "ValueError" (by simp)).2
+  · exact hw.glom_exc
+  · exact (hw.plain_ok "NameError" (by simp)).2
+  · exact (hw.plain_ok "IndexError" (by simp)).2
+  · exact (hw.plain_ok "KeyError" (by simp)).2
+
+/-- the tail of `runValidators` after validator `f`, adding `k` error messages -/
+def bump (env : Env) (d : Option Arg) (f : Fn) (fs : List Fn) (x : V) (k : Nat) : ValidRes × Log :=
+  addErrs k (fnLog f) (runValidators env d fs x)
+
+theorem runValidators_cons (d : Option Arg) (f : Fn) (fs : List Fn) (x : V) :
+    runValidators env d (f :: fs) x =
+      match validatorCond f x with
+      | .failsRaw => (match d with
+          | some a => (.ret (rawDefault a), fnLog f)
+          | none => bump env d f fs x 1)
+      | .holds => bump env d f fs x 0
+      | _ => bump env d f fs x 1 := by
+  unfold validatorCond bump
+  conv => lhs; unfold runValidators
+  cases hp : predApply f.2 x with
+  | ret v =>
+    cases v with
+    | bool b => cases b <;> rfl
+    | _ => rfl
+  | raise c =>
+    simp only [catch_exc hw "Check.glomit" (by simp [catchSites]), pred_is_exc hw hp, if_true]
+
+omit hw in
+theorem validatorCond_ne_fails (f : Fn) (x : V) : validatorCond f x ≠ .fails := by
+  unfold validatorCond; split <;> simp
+
+/-- without a default the loop never returns early: it counts the unmet validators -/
+theorem runValidators_none (fs : List Fn) (x : V) :
+    runValidators env none fs x =
+      (.errs (fs.filter (fun f => validatorCond f x != .holds)).length, fs.flatMap fnLog) := by
+  induction fs with
+  | nil => rfl
+  | cons f fs ih =>
+    rw [runValidators_cons hw]
+    have hne := validatorCond_ne_fails f x
+    cases hc : validatorCond f x <;> simp [bump, addErrs, ih, hc] at hne ⊢
+
+omit hw in
+theorem cwd_holds (a : Arg) (x t0 : V) (l : Log) (rest : List (Cond × Log)) (bad : Bool) :
+    checkWithDefault a x t0 ((.holds, l) :: rest) bad =
+      ((checkWithDefault a x t0 rest bad).1, l ++ (checkWithDefault a x t0 rest bad).2) := by
+  rw [checkWithDefault]
+
+/-- with a default: the loop either returns the raw default at the first validator that
+    returned False, or finishes having remembered whether one raised -/
+theorem runValidators_some (a : Arg) (x t0 : V) (rest : List (Cond × Log)) (fs : List Fn) (bad : Bool) :
+    match runValidators env (some a) fs x with
+    | (.ret v, l) =>
+      checkWithDefault a x t0 (fs.map (fun f => (validatorCond f x, fnLog f)) ++ rest) bad = (.pass v, l)
+    | (.raise _, _) => False
+    | (.errs n, l) =>
+      checkWithDefault a x t0 (fs.map (fun f => (validatorCond f x, fnLog f)) ++ rest) bad =
+        ((checkWithDefault a x t0 rest (bad || decide (n > 0))).1,
+         l ++ (checkWithDefault a x t0 rest (bad || decide (n > 0))).2) := by
+  induction fs generalizing bad with
+  | nil => simp [runValidators]
+  | cons f fs ih =>
+    rw [runValidators_cons hw]
+    have hne := validatorCond_ne_fails f x
+    simp only [List.map_cons, List.cons_append]
+    cases hc : validatorCond f x with
+    | fails => exact absurd hc hne
+    | failsRaw => simp [checkWithDefault]
+    | holds =>
+      have := ih bad
+      simp only [bump, addErrs]
+      rw [checkWithDefault]
+      cases hr : runValidators env (some a) fs x with
+      | mk vr l =>
+        rw [hr] at this
+        cases vr with
+        | ret v => simp only at this ⊢; rw [this]
+        | raise e => simp only at this
+        | errs n => simp only at this ⊢; rw [this]; simp [List.append_assoc]
+    | raised =>
+      have := ih true
+      simp only [bump, addErrs]
+      rw [checkWithDefault]
+      cases hr : runValidators env (some a) fs x with
+      | mk vr l =>
+        rw [hr] at this
+        cases vr with
+        | ret v => simp only at this ⊢; rw [this]
+        | raise e => simp only at this
+        | errs n => simp only at this ⊢; rw [this]; simp [List.append_assoc]
+
+
+omit hw in
+theorem cwd_opt (a : Arg) (x t0 : V) (absent ok : Bool) (rest : List (Cond × Log)) (bad : Bool) :
+    checkWithDefault a x t0
+      ((if absent then [] else [((if ok then Cond.holds else Cond.fails), ([] : Log))]) ++ rest) bad =
+    if !absent && !ok then (ofArg a x, []) else checkWithDefault a x t0 rest bad := by
+  cases absent <;> cases ok <;> simp [checkWithDefault]
+
+omit hw in
+theorem cwd_nil (a : Arg) (x t0 : V) (bad : Bool) :
+    checkWithDefault a x t0 [] bad = if bad then vreject .check else vpass t0 := by
+  rw [checkWithDefault]
+
+theorem checkOn_rel (o : CheckObj) (x t0 : V) :
+    Rel env (checkOn env o x t0)
+      (match o.default with
+       | some d => checkWithDefault d x t0 (checkConds env.cls o x) false
+       | none => checkNoDefault t0 (checkConds env.cls o x)) := by
+  unfold checkOn checkConds
+  cases hd : o.default with
+  | none =>
+    simp only [Option.isSome_none, Bool.and_false, Bool.false_eq_true, if_false, runValidators_none hw]
+    unfold checkNoDefault
+    simp only [List.all_append, List.flatMap_append, List.all_map, List.flatMap_map]
+    generalize o.types.isEmpty = e1
+    generalize o.types.contains x.cls = k1
+    generalize o.vals.isEmpty = e2
+    generalize pyIn x o.vals = k2
+    generalize o.instanceOf.isEmpty = e3
+    generalize (o.instanceOf.any fun c => isInst env.cls x c) = k3
+    have hlog : ∀ (b : Bool) (c : Cond),
+        List.flatMap (fun (p : Cond × Log) => p.2) (if b then [] else [(c, ([] : Log))]) = [] := by
+      intro b c; cases b <;> simp
+    have hfl : List.flatMap (fun f => fnLog f) o.validators = List.flatMap fnLog o.validators := rfl
+    simp only [hlog, List.nil_append, List.append_nil]
+    have hall : (o.validators.all fun f => validatorCond f x == Cond.holds) =
+        ((o.validators.filter fun f => validatorCond f x != Cond.holds).length == 0) := by
+      induction o.validators with
+      | nil => rfl
+      | cons f fs ih =>
+        simp only [List.all_cons, List.filter_cons, ih]
+        cases validatorCond f x <;> simp
+    simp only [Function.comp_def, hall]
+    generalize (o.validators.filter fun f => validatorCond f x != Cond.holds).length = n
+    have hraise := raise_rel hw "Check.glomit" 1 .check (List.flatMap fnLog o.validators)
+      (by simp [siteOrigins])
+    cases e1 <;> cases k1 <;> cases e2 <;> cases k2 <;> cases e3 <;> cases k3 <;>
+      cases n <;> first
+        | exact Rel.mk_ok _ _
+        | (simp; exact hraise)
+        | (simp; exact Rel.mk_ok _ _)
+  | some a =>
+    simp only [Option.isSome_some, Bool.and_true, Option.getD_some]
+    rw [List.append_assoc, List.append_assoc, cwd_opt]
+    by_cases h1 : (!o.types.isEmpty && !o.types.contains x.cls) = true
+    · simp only [h1, ↓reduceIte]; exact argVal_rel hw a x []
+    · simp only [h1, ↓reduceIte]
+      rw [cwd_opt]
+      by_cases h2 : (!o.vals.isEmpty && !pyIn x o.vals) = true
+      · simp only [h2, ↓reduceIte]; exact argVal_rel hw a x []
+      · simp only [h2, ↓reduceIte]
+        have hv := runValidators_some hw a x t0
+          (if o.instanceOf.isEmpty then []
+            else [(if o.instanceOf.any fun c => isInst env.cls x c then Cond.holds else Cond.fails, [])])
+          o.validators false
+        cases hr : runValidators env (some a) o.validators x with
+        | mk vr l =>
+          rw [hr] at hv
+          cases vr with
+          | ret v => simp only at hv ⊢; rw [hv]; exact Rel.mk_ok v l
+          | raise e => exact absurd hv (by simp)
+          | errs n =>
+            simp only at hv ⊢
+            rw [hv]
+            have := cwd_opt a x t0 o.instanceOf.isEmpty
+              (o.instanceOf.any fun c => isInst env.cls x c) [] (false || decide (n > 0))
+            rw [List.append_nil] at this
+            rw [this]
+            by_cases h3 : (!o.instanceOf.isEmpty && !o.instanceOf.any fun c => isInst env.cls x c) = true
+            · simp only [h3, ↓reduceIte, List.append_nil]
+              exact argVal_rel hw a x l
+            · simp only [h3, ↓reduceIte]
+              rw [cwd_nil]
+              simp only [Bool.not_eq_true] at h1 h2 h3
+              simp only [h1, h2, h3, Bool.false_eq_true, if_false, Nat.zero_add, Nat.add_zero,
+                Bool.false_or]
+              by_cases hn : n > 0
+              · simp only [hn, decide_true, if_true, vreject, List.append_nil]
+                exact raise_rel hw "Check.glomit" 1 .check l (by simp [siteOrigins])
+              · simp only [hn, decide_false, Bool.false_eq_true, if_false, vpass, List.append_nil]
+                exact Rel.mk_ok t0 l
+
+theorem checkGlomit_rel (a : CheckArgs) (o : CheckObj) (ho : checkInit a = .ok o) (t0 : V) :
+    Rel env (checkGlomit env o t0) (checkRef env.cls a t0) := by
+  unfold checkGlomit checkRef
+  rw [ho]
+  simp only
+  cases o.spec with
+  | none => exact checkOn_rel hw o t0 t0
+  | some e =>
+    simp only [tRes, vaccess]
+    cases tGet e t0 with
+    | none => exact Rel.mk_rej [] hw.pae_ok
+    | some x => exact checkOn_rel hw o x t0
+
+
+/-! ### loops over the target -/
+
+/-- one item against the alternatives -/
+def AltRel (env : Env) (specEmpty : Bool) (a : AltRes × Log) (last : Option PyExc) (d : D) : Prop :=
+  a.2 = d.2 ∧
+  match a.1, d.1 with
+  | .hit v _, .pass v' => v = v'
+  | .miss last', .reject o =>
+    (specEmpty = true ∧ o = .comb ∧ last' = last) ∨
+    (specEmpty = false ∧ ∃ e, last' = some e ∧ classOK env o e.cls = true)
+  | .raise e, .fault c => e.cls = c ∧ env.exc.isSub c "GlomError" = false
+  | _, _ => False
+
+def ItemsRel (env : Env) (a : Except PyExc (List V) × Log) (b : Except Verdict (List V) × Log) : Prop :=
+  a.2 = b.2 ∧
+  match a.1, b.1 with
+  | .ok vs, .ok vs' => vs = vs'
+  | .error e, .error v => RelRes env (.error e) v
+  | _, _ => False
+
+theorem itemsLoop_rel (specEmpty : Bool) (alts : V → Option PyExc → AltRes × Log) (dalt : V → D)
+    (h : ∀ item last, AltRel env specEmpty (alts item last) last (dalt item))
+    (items : List V) (last : Option PyExc) :
+    ItemsRel env (itemsLoop env specEmpty alts items last) (allItems dalt items) := by
+  induction items generalizing last with
+  | nil => exact ⟨rfl, rfl⟩
+  | cons it its ih =>
+    have ha := h it last
+    unfold itemsLoop allItems
+    obtain ⟨hl, hm⟩ := ha
+    cases hr : alts it last with
+    | mk ar al =>
+      cases hd : dalt it with
+      | mk dv dl =>
+        rw [hr, hd] at hl hm
+        simp only at hl hm
+        subst hl
+        cases ar with
+        | hit v last' =>
+          cases dv with
+          | pass v' =>
+            simp only at hm; subst hm
+            have := ih last'
+            obtain ⟨h1, h2⟩ := this
+            refine ⟨by simp [h1], ?_⟩
+            simp only
+            cases hx : (itemsLoop env specEmpty alts its last').1 <;>
+              cases hy : (allItems dalt its).1 <;> rw [hx, hy] at h2 <;> simp_all [Except.map]
+          | _ => simp at hm
+        | miss last' =>
+          cases dv with
+          | reject o =>
+            simp only at hm
+            rcases hm with ⟨he, ho, _⟩ | ⟨he, e, hl', hc⟩
+            · subst he ho
+              exact ⟨rfl, hw.raise_ok ("_glom_match/listlike", 1, .comb) (by simp [siteOrigins])⟩
+            · subst he hl'
+              exact ⟨rfl, hc⟩
+          | _ => simp at hm
+        | raise e =>
+          cases dv with
+          | fault c => exact ⟨rfl, hm⟩
+          | _ => simp at hm
+
+theorem mkSet_rel (frozen : Bool) (xs : List V) : RelRes env (mkSetLike frozen xs) (mkSetRef frozen xs) := by
+  unfold mkSetLike mkSetRef
+  split
+  · rfl
+  · exact ⟨rfl, (hw.plain_ok "TypeError" (by simp)).1⟩
+
+omit hw in
+theorem finish_map_rel {a : Except PyExc (List V) × Log} {b : Except Verdict (List V) × Log}
+    (h : ItemsRel env a b) (mk : List V → V) :
+    Rel env (a.1.map mk, a.2) (finish (fun vs => .pass (mk vs)) b) := by
+  obtain ⟨h1, h2⟩ := h
+  obtain ⟨ar, al⟩ := a
+  obtain ⟨br, bl⟩ := b
+  simp only at h1 h2; subst h1
+  unfold finish
+  cases ar <;> cases br <;> simp_all [Except.map, Rel, RelRes]
+
+omit hw in
+theorem finish_bind_rel {a : Except PyExc (List V) × Log} {b : Except Verdict (List V) × Log}
+    (h : ItemsRel env a b) (mk : List V → Res) (mk' : List V → Verdict)
+    (hmk : ∀ xs, RelRes env (mk xs) (mk' xs)) :
+    Rel env (a.1.bind mk, a.2) (finish mk' b) := by
+  obtain ⟨h1, h2⟩ := h
+  obtain ⟨ar, al⟩ := a
+  obtain ⟨br, bl⟩ := b
+  simp only at h1 h2; subst h1
+  unfold finish
+  cases ar <;> cases br <;> simp_all [Except.bind, Rel, RelRes]
+
+/-- one target entry against the spec keys -/
+def FindRel (env : Env) (a : FindRes × Log) (b : KeyHit × Log) : Prop :=
+  a.2 = b.2 ∧
+  match a.1, b.1 with
+  | .hit i k v, .hit i' k' v' => i = i' ∧ k = k' ∧ v = v'
+  | .miss, .noKey => True
+  | .raise e, .stop v => RelRes env (.error e) v
+  | _, _ => False
+
+theorem dictLoop_rel (find : V → V → FindRes × Log) (find' : V → V → KeyHit × Log)
+    (h : ∀ k v, FindRel env (find k v) (find' k v)) (req0 : List Nat)
+    (items result : List (V × V)) (required seen : List Nat)
+    (hreq : required = req0.filter (fun i => !seen.contains i)) :
+    (dictLoop env find items result required).2 = (dictRef find' items result seen).2 ∧
+    match (dictLoop env find items result required).1, (dictRef find' items result seen).1 with
+    | .ok (res, req), .ok (res', seen') =>
+      res = res' ∧ req = req0.filter (fun i => !seen'.contains i)
+    | .error e, .error v => RelRes env (.error e) v
+    | _, _ => False := by
+  induction items generalizing result required seen with
+  | nil => exact ⟨rfl, rfl, hreq⟩
+  | cons kv rest ih =>
+    obtain ⟨k, v⟩ := kv
+    have hf := h k v
+    unfold dictLoop dictRef
+    obtain ⟨hl, hm⟩ := hf
+    cases hr : find k v with
+    | mk fr fl =>
+      cases hd : find' k v with
+      | mk dr dl =>
+        rw [hr, hd] at hl hm
+        simp only at hl hm
+        subst hl
+        cases fr with
+        | hit i k' v' =>
+          cases dr with
+          | hit i' k'' v'' =>
+            simp only at hm
+            obtain ⟨rfl, rfl, rfl⟩ := hm
+            have := ih (dictSet result k' v') (listRemove required i) (i :: seen) (by
+              subst hreq
+              simp only [listRemove, List.filter_filter]
+              congr 1; funext j
+              by_cases hj : j = i <;> simp [hj, Bool.and_comm])
+            simp only
+            exact ⟨by rw [this.1], this.2⟩
+          | _ => simp at hm
+        | miss =>
+          cases dr with
+          | noKey =>
+            exact ⟨rfl, hw.raise_ok ("_handle_dict", 1, .comb) (by simp [siteOrigins])⟩
+          | _ => simp at hm
+        | raise e =>
+          cases dr with
+          | stop x => exact ⟨rfl, hm⟩
+          | _ => simp at hm
+
+omit hw in
+/-- relation between the two default-filling loops -/
+def FillRel (env : Env) (a : Except PyExc (List (V × V))) (b : Except Verdict (List (V × V))) : Prop :=
+  match a, b with
+  | .ok x, .ok y => x = y
+  | .error e, .error v => RelRes env (.error e) v
+  | _, _ => False
+
+theorem fillDefaults_rel (target : V) (ds : List (V × Arg)) (result : List (V × V)) :
+    FillRel env (fillDefaults target ds result) (defaultsRef target ds result) := by
+  induction ds generalizing result with
+  | nil => simp [fillDefaults, defaultsRef, FillRel]
+  | cons kd ds ih =>
+    obtain ⟨k, d⟩ := kd
+    unfold fillDefaults defaultsRef
+    by_cases hk : dictHas result k = true
+    · simp only [hk, if_true]; exact ih result
+    · simp only [hk, Bool.false_eq_true, if_false]
+      have := (argVal_rel hw d target []).1
+      simp only at this
+      rcases this.elim with ⟨a, ha, ho⟩ | ⟨e, o, ha, ho, hc⟩ | ⟨e, ha, ho, hg⟩
+      · rw [ha, ho]; exact ih _
+      · rw [ha, ho]; exact hc
+      · rw [ha, ho]; exact ⟨rfl, hg⟩
+
+/-! ### required keys -/
+
+omit hw in
+theorem filter_isEmpty_eq_all (l seen : List Nat) :
+    (l.filter (fun i => !seen.contains i)).isEmpty = l.all (fun i => seen.contains i) := by
+  induction l with
+  | nil => rfl
+  | cons a l ih =>
+    simp only [List.filter_cons, List.all_cons]
+    cases h : seen.contains a
+    · simp
+    · simpa using ih
+
+end
+
+mutual
+theorem isEqKey_prec : ∀ s : Spec, isEqKey s = true → precedence s = 0
+  | .lit _, _ => by simp [precedence]
+  | .tuple ps, h => by
+      simp only [isEqKey] at h
+      simp only [precedence]; exact isEqKeyL_prec ps h
+  | .fset ps, h => by
+      simp only [isEqKey] at h
+      simp only [precedence]; exact isEqKeyL_prec ps h
+  | .t _, h | .val _, h | .mtype, h | .msub _, h | .mexpr .., h | .and .., h | .or .., h | .not _, h
+  | .switch .., h | .check _, h | .regex .., h | .matchS .., h | .ty _, h | .pred .., h | .list _, h
+  | .set _, h | .dict _, h => by simp [isEqKey] at h
+theorem isEqKeyL_prec : ∀ ps : List Spec, isEqKeyL ps = true → precedenceL ps = 0
+  | [], _ => by simp [precedenceL]
+  | p :: ps, h => by
+      simp only [isEqKeyL, Bool.and_eq_true] at h
+      simp [precedenceL, isEqKey_prec p h.1, isEqKeyL_prec ps h.2]
+end
+
+/- spec trees in which every plain dict key that `_precedence` ranks 0 is an equality key -/
+mutual
+def keysOK : Spec → Bool
+  | .and cs _ | .or cs _ | .list cs | .set cs | .fset cs | .tuple cs => keysOKL cs
+  | .not c | .matchS c _ => keysOK c
+  | .switch cases _ => keysOKC cases
+  | .dict es => keysOKD es
+  | _ => true
+def keysOKL : List Spec → Bool
+  | [] => true
+  | s :: ss => keysOK s && keysOKL ss
+def keysOKC : List (Spec × Spec) → Bool
+  | [] => true
+  | (k, v) :: r => keysOK k && keysOK v && keysOKC r
+def keysOKD : List (KeyKind × Spec × Spec) → Bool
+  | [] => true
+  | (kind, k, v) :: r =>
+    (match kind with
+     | .plain => precedence k != 0 || isEqKey k
+     | _ => true) && keysOK k && keysOK v && keysOKD r
+end
+
+theorem required_eq (es : List (KeyKind × Spec × Spec)) (i : Nat) (h : keysOKD es = true) :
+    requiredIdx es i = requiredRef es i := by
+  induction es generalizing i with
+  | nil => rfl
+  | cons e es ih =>
+    obtain ⟨kind, k, v⟩ := e
+    simp only [keysOKD, Bool.and_eq_true] at h
+    obtain ⟨⟨⟨h1, _⟩, _⟩, h4⟩ := h
+    simp only [requiredIdx, requiredRef, ih (i + 1) h4]
+    congr 1
+    cases kind with
+    | plain =>
+      simp only [Bool.or_eq_true, bne_iff_ne, ne_eq] at h1
+      cases he : isEqKey k
+      · have : precedence k ≠ 0 := by
+          rcases h1 with h1 | h1
+          · exact h1
+          · rw [he] at h1; exact absurd h1 (by simp)
+        simp [this]
+      · simp [isEqKey_prec k he]
+    | opt d => rfl
+    | req => rfl
+
+/-! ### constructor errors, piecewise -/
+
+theorem orElse_none {α} {a : Option α} {b : Unit → Option α} (h : a.orElse b = none) :
+    a = none ∧ b () = none := by
+  cases a <;> simp_all [Option.orElse]
+
+theorem ctorErr_and {cs : List Spec} {d : Option Arg} (h : ctorErr (.and cs d) = none) :
+    ctorErrL cs = none ∧ cs ≠ [] := by
+  simp only [ctorErr] at h
+  obtain ⟨h1, h2⟩ := orElse_none h
+  refine ⟨h1, ?_⟩
+  intro he; subst he; simp at h2
+
+theorem ctorErr_or {cs : List Spec} {d : Option Arg} (h : ctorErr (.or cs d) = none) :
+    ctorErrL cs = none ∧ cs ≠ [] := by
+  simp only [ctorErr] at h
+  obtain ⟨h1, h2⟩ := orElse_none h
+  refine ⟨h1, ?_⟩
+  intro he; subst he; simp at h2
+
+theorem ctorErr_switch {cases : List (Spec × Spec)} {d : Option Arg}
+    (h : ctorErr (.switch cases d) = none) : ctorErrC cases = none := by
+  simp only [ctorErr] at h
+  exact (orElse_none h).1
+
+theorem ctorErrL_cons {s : Spec} {ss : List Spec} (h : ctorErrL (s :: ss) = none) :
+    ctorErr s = none ∧ ctorErrL ss = none := by
+  simp only [ctorErrL] at h
+  exact orElse_none h
+
+theorem ctorErrC_cons {k v : Spec} {r : List (Spec × Spec)} (h : ctorErrC ((k, v) :: r) = none) :
+    ctorErr k = none ∧ ctorErr v = none ∧ ctorErrC r = none := by
+  simp only [ctorErrC] at h
+  obtain ⟨h1, h2⟩ := orElse_none h
+  obtain ⟨h3, h4⟩ := orElse_none h1
+  exact ⟨h3, h4, h2⟩
+
+theorem ctorErrD_cons {kind : KeyKind} {k v : Spec} {r : List (KeyKind × Spec × Spec)}
+    (h : ctorErrD ((kind, k, v) :: r) = none) :
+    ctorErr k = none ∧ ctorErr v = none ∧ ctorErrD r = none := by
+  simp only [ctorErrD] at h
+  obtain ⟨h1, h2⟩ := orElse_none h
+  obtain ⟨h3, h4⟩ := orElse_none h1
+  obtain ⟨h5, _⟩ := orElse_none h3
+  exact ⟨h5, h4, h2⟩
+
+/-! ### the refinement: the code-shaped evaluator computes the denotation -/
+
+section
+variable {env : Env} (hw : WFacts env)
+include hw
+
+mutual
+theorem eval_rel : ∀ (s : Spec) (t : V), ctorErr s = none → keysOK s = true →
+    Rel env (eval env s t) (denote env.cls s t)
+  | .t e, t, _, _ => by
+    simp only [eval, denote, tRes, vaccess]
+    cases tGet e t with
+    | none => exact Rel.mk_rej [] hw.pae_ok
+    | some v => exact Rel.mk_ok v []
+  | .val v, t, _, _ => by simp only [eval, denote]; exact Rel.mk_ok v []
+  | .mtype, t, _, _ => by
+    simp only [eval, denote, vcond]
+    cases truthy t
+    · exact raise_rel hw "_MType.glomit" 0 .comb [] (by simp [siteOrigins])
+    · exact Rel.mk_ok t []
+  | .msub e, t, _, _ => by
+    simp only [eval, denote, tRes, vaccess]
+    cases tGet e t with
+    | none => exact Rel.mk_rej [] hw.pae_ok
+    | some m =>
+      simp only [vcond]
+      cases truthy m
+      · exact raise_rel hw "_MSubspec.glomit" 0 .comb [] (by simp [siteOrigins])
+      · exact Rel.mk_ok t []
+  | .mexpr l op r, t, _, _ => by
+    simp only [eval]; exact mexpr_rel hw l op r t
+  | .and cs d, t, hc, hk => by
+    obtain ⟨hcl, _⟩ := ctorErr_and hc
+    simp only [eval, denote]
+    exact default_rel hw "_Bool.glomit" (by simp [catchSites]) d t
+      (evalAnd_rel cs t t hcl (by simpa [keysOK] using hk))
+  | .or cs d, t, hc, hk => by
+    obtain ⟨hcl, hne⟩ := ctorErr_or hc
+    simp only [eval, denote]
+    exact default_rel hw "_Bool.glomit" (by simp [catchSites]) d t
+      (evalOr_rel cs t hne hcl (by simpa [keysOK] using hk))
+  | .not c, t, hc, hk => by
+    have ih := eval_rel c t (by simpa [ctorErr] using hc) (by simpa [keysOK] using hk)
+    simp only [eval, denote]
+    rcases ih.cases with ⟨a, l, h1, h2⟩ | ⟨e, og, l, h1, h2, hcl⟩ | ⟨e, l, h1, h2, hg⟩
+    · simp only [h1, h2]
+      exact raise_rel hw "Not.glomit" 0 .comb l (by simp [siteOrigins])
+    · simp only [h1, h2, catch_glom hw "Not.glomit" (by simp [catchSites]), classOK_glom hcl, if_true]
+      exact Rel.mk_ok t l
+    · simp only [h1, h2, catch_glom hw "Not.glomit" (by simp [catchSites]), hg]
+      exact Rel.mk_fault l hg
+  | .switch cases d, t, hc, hk => by
+    simp only [eval, denote]
+    exact evalSwitch_rel cases d t (ctorErr_switch hc) (by simpa [keysOK] using hk)
+  | .check a, t, hc, _ => by
+    simp only [ctorErr] at hc
+    simp only [eval, denote]
+    cases hi : checkInit a with
+    | error e => rw [hi] at hc; simp at hc
+    | ok o => exact checkGlomit_rel hw a o hi t
+  | .regex items f, t, _, _ => by
+    simp only [eval, denote]
+    cases t with
+    | str s =>
+      simp only [vcond]
+      cases reMatches items f s
+      · exact raise_rel hw "Regex.glomit" 1 .comb [] (by simp [siteOrigins])
+      · exact Rel.mk_ok _ []
+    | _ => exact raise_rel hw "Regex.glomit" 0 .comb [] (by simp [siteOrigins])
+  | .matchS s d, t, hc, hk => by
+    simp only [eval, denote]
+    exact default_rel hw "Match.glomit" (by simp [catchSites]) d t
+      (eval_rel s t (by simpa [ctorErr] using hc) (by simpa [keysOK] using hk))
+  | .ty n, t, _, _ => by
+    simp only [eval, denote]
+    cases isInst env.cls t n
+    · exact raise_rel hw "_glom_match/type" 0 .typ [] (by simp [siteOrigins])
+    · exact Rel.mk_ok t []
+  | .lit v, t, _, _ => by
+    simp only [eval, denote, vcond]
+    cases pyEq t v
+    · exact raise_rel hw "_glom_match/ne" 0 .comb [] (by simp [siteOrigins])
+    · exact Rel.mk_ok t []
+  | .pred id fn, t, _, _ => by
+    simp only [eval, denote]
+    cases hp : predApply fn t with
+    | ret v =>
+      simp only
+      cases truthy v
+      · exact raise_rel hw "_glom_match/callable" 1 .comb [id] (by simp [siteOrigins])
+      · exact Rel.mk_ok t [id]
+    | raise c =>
+      simp only [catch_exc hw "_glom_match/callable" (by simp [catchSites]), pred_is_exc hw hp, if_true]
+      exact raise_rel hw "_glom_match/callable" 0 .comb [id] (by simp [siteOrigins])
+  | .list alts, t, hc, hk => by
+    simp only [eval, denote]
+    cases t with
+    | list items =>
+      exact finish_map_rel (itemsLoop_rel hw alts.isEmpty (evalAlts env alts) (denAlt env.cls alts)
+        (fun item last => evalAlts_rel alts item last (by simpa [ctorErr] using hc)
+          (by simpa [keysOK] using hk)) items none) V.list
+    | _ => exact raise_rel hw "_glom_match/listlike" 0 .typ [] (by simp [siteOrigins])
+  | .set alts, t, hc, hk => by
+    simp only [eval, denote]
+    cases t with
+    | set items =>
+      exact finish_bind_rel (itemsLoop_rel hw alts.isEmpty (evalAlts env alts) (denAlt env.cls alts)
+        (fun item last => evalAlts_rel alts item last (by simpa [ctorErr] using hc)
+          (by simpa [keysOK] using hk)) items none) _ _ (mkSet_rel hw false)
+    | _ => exact raise_rel hw "_glom_match/listlike" 0 .typ [] (by simp [siteOrigins])
+  | .fset alts, t, hc, hk => by
+    simp only [eval, denote]
+    cases t with
+    | fset items =>
+      exact finish_bind_rel (itemsLoop_rel hw alts.isEmpty (evalAlts env alts) (denAlt env.cls alts)
+        (fun item last => evalAlts_rel alts item last (by simpa [ctorErr] using hc)
+          (by simpa [keysOK] using hk)) items none) _ _ (mkSet_rel hw true)
+    | _ => exact raise_rel hw "_glom_match/listlike" 0 .typ [] (by simp [siteOrigins])
+  | .tuple ps, t, hc, hk => by
+    simp only [eval, denote]
+    cases t with
+    | tuple items =>
+      simp only
+      split
+      · exact raise_rel hw "_glom_match/tuple" 1 .comb [] (by simp [siteOrigins])
+      · exact finish_map_rel (evalZip_rel ps items (by simpa [ctorErr] using hc)
+          (by simpa [keysOK] using hk)) V.tuple
+    | _ => exact raise_rel hw "_glom_match/tuple" 0 .typ [] (by simp [siteOrigins])
+  | .dict es, t, hc, hk => by
+    simp only [eval, denote]
+    cases t with
+    | dict items =>
+      have hcd : ctorErrD es = none := by simpa [ctorErr] using hc
+      have hkd : keysOKD es = true := by simpa [keysOK] using hk
+      have hl := dictLoop_rel hw (dictFind env es 0) (denKey env.cls es 0)
+        (fun k v => dictFind_rel es 0 k v hcd hkd) (requiredIdx es 0) items [] (requiredIdx es 0) []
+        (by simp)
+      obtain ⟨hl1, hl2⟩ := hl
+      simp only
+      cases hm : (dictLoop env (dictFind env es 0) items [] (requiredIdx es 0)).1 with
+      | error e =>
+        cases hr : (dictRef (denKey env.cls es 0) items [] []).1 with
+        | error v =>
+          rw [hm, hr] at hl2
+          exact ⟨hl2, hl1⟩
+        | ok p => rw [hm, hr] at hl2; exact absurd hl2 (by simp)
+      | ok p =>
+        obtain ⟨result, required⟩ := p
+        cases hr : (dictRef (denKey env.cls es 0) items [] []).1 with
+        | error v => rw [hm, hr] at hl2; exact absurd hl2 (by simp)
+        | ok q =>
+          obtain ⟨result', seen⟩ := q
+          rw [hm, hr] at hl2
+          simp only at hl2
+          obtain ⟨rfl, hreq⟩ := hl2
+          simp only
+          have hf := fillDefaults_rel hw (.dict items) (dictDefaults es) result
+          cases hfa : fillDefaults (.dict items) (dictDefaults es) result with
+          | error e =>
+            cases hfb : defaultsRef (.dict items) (dictDefaults es) result with
+            | error v => rw [hfa, hfb] at hf; exact ⟨hf, hl1⟩
+            | ok _ => rw [hfa, hfb] at hf; exact absurd hf (by simp [FillRel])
+          | ok r1 =>
+            cases hfb : defaultsRef (.dict items) (dictDefaults es) result with
+            | error v => rw [hfa, hfb] at hf; exact absurd hf (by simp [FillRel])
+            | ok r2 =>
+              rw [hfa, hfb] at hf
+              simp only [FillRel] at hf
+              subst hf
+              simp only
+              rw [hreq, filter_isEmpty_eq_all, required_eq es 0 hkd]
+              split
+              · exact ⟨rfl, hl1⟩
+              · exact ⟨hw.raise_ok ("_handle_dict", 2, .comb) (by simp [siteOrigins]), hl1⟩
+    | _ => exact raise_rel hw "_handle_dict" 0 .typ [] (by simp [siteOrigins])
+
+theorem evalAnd_rel : ∀ (cs : List Spec) (t r : V), ctorErrL cs = none → keysOKL cs = true →
+    Rel env (evalAnd env cs t r) (denAll env.cls cs t r)
+  | [], t, r, _, _ => by simp only [evalAnd, denAll]; exact Rel.mk_ok r []
+  | c :: cs, t, r, hc, hk => by
+    obtain ⟨hc1, hc2⟩ := ctorErrL_cons hc
+    simp only [keysOKL, Bool.and_eq_true] at hk
+    have ih := eval_rel c t hc1 hk.1
+    simp only [evalAnd, denAll]
+    rcases ih.cases with ⟨a, l, h1, h2⟩ | ⟨e, og, l, h1, h2, hcl⟩ | ⟨e, l, h1, h2, hg⟩
+    · simp only [h1, h2]
+      have ih2 := evalAnd_rel cs t a hc2 hk.2
+      exact ⟨ih2.1, by rw [ih2.2]⟩
+    · simp only [h1, h2]; exact Rel.mk_rej l hcl
+    · simp only [h1, h2]; exact Rel.mk_fault l hg
+
+theorem evalOr_rel : ∀ (cs : List Spec) (t : V), cs ≠ [] → ctorErrL cs = none → keysOKL cs = true →
+    Rel env (evalOr env cs t) (denAny env.cls cs t)
+  | [], _, hne, _, _ => absurd rfl hne
+  | [c], t, _, hc, hk => by
+    simp only [keysOKL, Bool.and_eq_true] at hk
+    simp only [evalOr, denAny]
+    exact eval_rel c t (ctorErrL_cons hc).1 hk.1
+  | c :: c' :: cs, t, _, hc, hk => by
+    obtain ⟨hc1, hc2⟩ := ctorErrL_cons hc
+    have hk' := hk
+    simp only [keysOKL, Bool.and_eq_true] at hk
+    have ih := eval_rel c t hc1 hk.1
+    simp only [evalOr, denAny]
+    rcases ih.cases with ⟨a, l, h1, h2⟩ | ⟨e, og, l, h1, h2, hcl⟩ | ⟨e, l, h1, h2, hg⟩
+    · simp only [h1, h2]; exact Rel.mk_ok a l
+    · simp only [h1, h2, catch_glom hw "Or._glomit" (by simp [catchSites]), classOK_glom hcl, if_true]
+      have ih2 := evalOr_rel (c' :: cs) t (by simp) hc2 (by simp [keysOKL, hk.2.1, hk.2.2])
+      exact ⟨ih2.1, by rw [ih2.2]⟩
+    · simp only [h1, h2, catch_glom hw "Or._glomit" (by simp [catchSites]), hg]
+      exact Rel.mk_fault l hg
+
+theorem evalSwitch_rel : ∀ (cases : List (Spec × Spec)) (d : Option Arg) (t : V),
+    ctorErrC cases = none → keysOKC cases = true →
+    Rel env (evalSwitch env cases d t) (denCases env.cls cases d t)
+  | [], d, t, _, _ => by
+    simp only [evalSwitch, denCases, withDefault, vreject]
+    cases d with
+    | none => exact raise_rel hw "Switch.glomit" 0 .comb [] (by simp [siteOrigins])
+    | some a => exact argVal_rel hw a t []
+  | (k, v) :: rest, d, t, hc, hk => by
+    obtain ⟨hc1, hc2, hc3⟩ := ctorErrC_cons hc
+    simp only [keysOKC, Bool.and_eq_true] at hk
+    have ih := eval_rel k t hc1 hk.1.1
+    simp only [evalSwitch, denCases]
+    rcases ih.cases with ⟨a, l, h1, h2⟩ | ⟨e, og, l, h1, h2, hcl⟩ | ⟨e, l, h1, h2, hg⟩
+    · simp only [h1, h2]
+      have ih2 := eval_rel v t hc2 hk.1.2
+      exact ⟨ih2.1, by rw [ih2.2]⟩
+    · simp only [h1, h2, catch_glom hw "Switch.glomit" (by simp [catchSites]), classOK_glom hcl, if_true]
+      have ih2 := evalSwitch_rel rest d t hc3 hk.2
+      exact ⟨ih2.1, by rw [ih2.2]⟩
+    · simp only [h1, h2, catch_glom hw "Switch.glomit" (by simp [catchSites]), hg]
+      exact Rel.mk_fault l hg
+
+theorem evalAlts_rel : ∀ (alts : List Spec) (item : V) (last : Option PyExc),
+    ctorErrL alts = none → keysOKL alts = true →
+    AltRel env alts.isEmpty (evalAlts env alts item last) last (denAlt env.cls alts item)
+  | [], item, last, _, _ => by
+    simp only [evalAlts, denAlt, vreject]
+    exact ⟨rfl, Or.inl ⟨rfl, rfl, rfl⟩⟩
+  | [c], item, last, hc, hk => by
+    simp only [keysOKL, Bool.and_eq_true] at hk
+    have ih := eval_rel c item (ctorErrL_cons hc).1 hk.1
+    simp only [evalAlts, denAlt]
+    rcases ih.cases with ⟨a, l, h1, h2⟩ | ⟨e, og, l, h1, h2, hcl⟩ | ⟨e, l, h1, h2, hg⟩
+    · simp only [h1, h2]; exact ⟨rfl, rfl⟩
+    · simp only [h1, h2, catch_glom hw "_glom_match/listlike" (by simp [catchSites]),
+        classOK_glom hcl, if_true]
+      exact ⟨by simp, Or.inr ⟨rfl, e, rfl, hcl⟩⟩
+    · simp only [h1, h2, catch_glom hw "_glom_match/listlike" (by simp [catchSites]), hg]
+      exact ⟨rfl, rfl, hg⟩
+  | c :: c' :: cs, item, last, hc, hk => by
+    obtain ⟨hc1, hc2⟩ := ctorErrL_cons hc
+    simp only [keysOKL, Bool.and_eq_true] at hk
+    have ih := eval_rel c item hc1 hk.1
+    simp only [evalAlts, denAlt]
+    rcases ih.cases with ⟨a, l, h1, h2⟩ | ⟨e, og, l, h1, h2, hcl⟩ | ⟨e, l, h1, h2, hg⟩
+    · simp only [h1, h2]; exact ⟨rfl, rfl⟩
+    · simp only [h1, h2, catch_glom hw "_glom_match/listlike" (by simp [catchSites]),
+        classOK_glom hcl, if_true]
+      have ih2 := evalAlts_rel (c' :: cs) item (some e) hc2 (by simp [keysOKL, hk.2.1, hk.2.2])
+      obtain ⟨i1, i2⟩ := ih2
+      refine ⟨by simp only [i1], ?_⟩
+      simp only [evalAlts, denAlt] at i2 ⊢
+      revert i2
+      cases (evalAlts env (c' :: cs) item (some e)).1 <;> cases (denAlt env.cls (c' :: cs) item).1 <;>
+        simp
+    · simp only [h1, h2, catch_glom hw "_glom_match/listlike" (by simp [catchSites]), hg]
+      exact ⟨rfl, rfl, hg⟩
+
+theorem evalZip_rel : ∀ (ps : List Spec) (xs : List V), ctorErrL ps = none → keysOKL ps = true →
+    ItemsRel env (evalZip env ps xs) (denZip env.cls ps xs)
+  | [], xs, _, _ => by simp only [evalZip, denZip]; exact ⟨rfl, rfl⟩
+  | _ :: _, [], _, _ => by simp only [evalZip, denZip]; exact ⟨rfl, rfl⟩
+  | p :: ps, x :: xs, hc, hk => by
+    obtain ⟨hc1, hc2⟩ := ctorErrL_cons hc
+    simp only [keysOKL, Bool.and_eq_true] at hk
+    have ih := eval_rel p x hc1 hk.1
+    simp only [evalZip, denZip]
+    rcases ih.cases with ⟨a, l, h1, h2⟩ | ⟨e, og, l, h1, h2, hcl⟩ | ⟨e, l, h1, h2, hg⟩
+    · simp only [h1, h2]
+      have ih2 := evalZip_rel ps xs hc2 hk.2
+      obtain ⟨i1, i2⟩ := ih2
+      refine ⟨by simp only [i1], ?_⟩
+      revert i2
+      cases (evalZip env ps xs).1 <;> cases (denZip env.cls ps xs).1 <;> simp [Except.map]
+    · simp only [h1, h2]; exact ⟨rfl, hcl⟩
+    · simp only [h1, h2]; exact ⟨rfl, rfl, hg⟩
+
+theorem dictFind_rel : ∀ (es : List (KeyKind × Spec × Spec)) (i : Nat) (key val : V),
+    ctorErrD es = none → keysOKD es = true →
+    FindRel env (dictFind env es i key val) (denKey env.cls es i key val)
+  | [], i, key, val, _, _ => by simp only [dictFind, denKey]; exact ⟨rfl, trivial⟩
+  | (kind, ks, vs) :: es, i, key, val, hc, hk => by
+    obtain ⟨hc1, hc2, hc3⟩ := ctorErrD_cons hc
+    simp only [keysOKD, Bool.and_eq_true] at hk
+    obtain ⟨⟨⟨_, hk1⟩, hk2⟩, hk3⟩ := hk
+    have ihk : Rel env
+        (match kind, ks with
+          | .opt _, .lit k =>
+            if pyEq key k then (.ok key, []) else (.error (raiseAt env "Optional.glomit" 0), [])
+          | _, _ => eval env ks key)
+        (match kind, ks with
+          | .opt _, .lit k => vcond (pyEq key k) key
+          | _, _ => denote env.cls ks key) := by
+      split
+      · simp only [vcond]
+        split
+        · exact Rel.mk_ok key []
+        · exact raise_rel hw "Optional.glomit" 0 .comb [] (by simp [siteOrigins])
+      · exact eval_rel ks key hc1 hk1
+    have ihv := eval_rel vs val hc2 hk2
+    have ihr := dictFind_rel es (i + 1) key val hc3 hk3
+    simp only [dictFind, denKey]
+    rcases ihk.cases with ⟨a, l, h1, h2⟩ | ⟨e, og, l, h1, h2, hcl⟩ | ⟨e, l, h1, h2, hg⟩
+    · simp only [h1, h2]
+      rcases ihv.cases with ⟨a', l', g1, g2⟩ | ⟨e', og', l', g1, g2, gcl⟩ | ⟨e', l', g1, g2, gg⟩
+      · simp only [g1, g2]; exact ⟨rfl, rfl, rfl, rfl⟩
+      · simp only [g1, g2]; exact ⟨rfl, gcl⟩
+      · simp only [g1, g2]; exact ⟨rfl, rfl, gg⟩
+    · simp only [h1, h2, catch_glom hw "_handle_dict" (by simp [catchSites]), classOK_glom hcl, if_true]
+      obtain ⟨i1, i2⟩ := ihr
+      exact ⟨by simp only [i1], i2⟩
+    · simp only [h1, h2, catch_glom hw "_handle_dict" (by simp [catchSites]), hg]
+      exact ⟨rfl, rfl, hg⟩
+end
 
 end
 
